@@ -257,7 +257,7 @@ Proof.
     destruct (wake_writer tx1) as [tx2 w]. unfold add_wakes. vsimpl_goal. auto. }
   clearbody sx. destruct F as (F1 & F2 & F3 & F4).
   destruct (is_remote_fin_or_later _); [cbn [stk]; auto|].
-  destruct (pop_expired_mtu_probe (v_segs sx) (timer_expired (v_t_retransmit sx) (v_now sx)) _) as [segs1 pe] eqn:Ep.
+  destruct (pop_expired_mtu_probe (v_segs sx) _ _) as [segs1 pe] eqn:Ep.
   assert (Hcont : forall (tl : Z) (s2 : vsock),
     (v_last_remote_window s2 = v_last_remote_window s /\
      (v_rto_retransmissions s2 = v_rto_retransmissions s \/ timer_expired (v_t_retransmit s) (v_now s) = true)) ->
@@ -280,6 +280,7 @@ Proof.
     destruct (sg_delivered g); [discriminate|].
     destruct (timer_expired (v_t_retransmit sx) (v_now sx)); [reflexivity|].
     cbn [andb] in Ep. destruct (sg_probe g); discriminate.
+    (* (repair of D6: the flag is `expired && not local-fin`; false when not expired) *)
   - cbn [stk]. vsimpl_goal. auto.
   - apply Hcont. auto.
 Qed.
